@@ -3,11 +3,13 @@ package props
 import (
 	"crypto/tls"
 	"fmt"
+	"sort"
 	"sync"
 	"testing"
 	"time"
 
 	"github.com/go-ldap/ldap/v3"
+	"github.com/hashicorp/go-hclog"
 	"github.com/jimlambrt/gldap"
 	"pgregory.net/rapid"
 
@@ -29,6 +31,8 @@ type c13Session struct {
 
 type c13Case struct {
 	Sessions []c13Session `json:"sessions"`
+	Debug    bool         `json:"debug"`     // the server logs at Debug level (packets are dumped, extra code paths run)
+	LingerMs int          `json:"linger_ms"` // handlers of the plaintext requests before StartTLS keep running this long AFTER they have answered
 }
 
 // classifyTLS checks that b is a sequence of TLS records (the last one may be
@@ -79,6 +83,17 @@ func c13Exec(c c13Case, st *lab.Stats) *lab.Fail {
 		}
 	}
 	mux := recordingMux(rc, extNames, true)
+	if c.LingerMs > 0 {
+		// plaintext searches before the upgrade: answered at once, handler lingers
+		_ = mux.Search(func(w *gldap.ResponseWriter, r *gldap.Request) {
+			rc.add(observe(r, "search"))
+			_ = w.Write(r.NewResponse(gldap.WithResponseCode(gldap.ResultSuccess), gldap.WithDiagnosticMessage("search")))
+			_, id, _ := gldap.VerifMessageInfo(r)
+			if id%tagStride >= 400000 && id%tagStride < 450000 {
+				time.Sleep(time.Duration(c.LingerMs) * time.Millisecond)
+			}
+		}, gldap.WithBaseDN("dc=x"))
+	}
 	var mu sync.Mutex
 	handshakeErrs := map[int]error{}
 	_ = mux.ExtendedOperation(func(w *gldap.ResponseWriter, r *gldap.Request) {
@@ -102,12 +117,17 @@ func c13Exec(c c13Case, st *lab.Stats) *lab.Fail {
 		time.Sleep(time.Duration(s.D3) * time.Millisecond)
 	}, gldap.ExtendedOperationStartTLS)
 	// note: recordingMux registered its default route first; routes are matched before the default
-	srv, err := lab.StartServer(mux, lab.ServerOpts{})
+	so := lab.ServerOpts{}
+	if c.Debug {
+		so.LogLevel = hclog.Debug
+	}
+	srv, err := lab.StartServer(mux, so)
 	if err != nil {
 		st.Inconclusive(err.Error())
 		return nil
 	}
 	defer func() { _ = srv.Stop(15 * time.Second) }()
+	st.Class(fmt.Sprintf("debuglog=%v", c.Debug), fmt.Sprintf("linger=%d", c.LingerMs))
 	fails := make([]*lab.Fail, len(c.Sessions))
 	var wg sync.WaitGroup
 	for si, s := range c.Sessions {
@@ -256,6 +276,28 @@ func c13Session1(si int, s c13Session, srv *lab.Server, pki *lab.PKI, rc *record
 			return f
 		}
 	}
+	// requests inside the tunnel continue the connection's numbering: Pre plaintext
+	// requests, the StartTLS request itself, the optional first bind, then these
+	first := s.Pre + 1
+	if s.PauseMs > 0 {
+		first++
+	}
+	gotIDs := map[int]bool{}
+	for id := range want {
+		gotIDs[byID[id].ReqID] = true
+	}
+	for i := range s.Reqs {
+		if !gotIDs[first+i+1] {
+			return lab.Failf("tunnel-request-numbering", "%s: requests inside the tunnel carry Request.IDs %v, want the connection's numbering to continue with %d..%d", desc, keysInt(gotIDs), first+1, first+len(s.Reqs))
+		}
+	}
+	if !s.Concurrent {
+		for i, r := range s.Reqs {
+			if byID[base+int64(i)+1].ReqID != first+i+1 {
+				return lab.Failf("tunnel-request-numbering", "%s: tunnel request %d (%s) carries Request.ID %d, want %d", desc, i, r.Kind, byID[base+int64(i)+1].ReqID, first+i+1)
+			}
+		}
+	}
 	cl.Close()
 	time.Sleep(2 * time.Millisecond)
 	c2s, s2c := tap.Captured()
@@ -313,13 +355,26 @@ func c13Wire(desc string, c2s, s2c []byte, plainLen int, respID int64) *lab.Fail
 
 var _ = tls.VersionTLS12
 
+func keysInt(m map[int]bool) []int {
+	var out []int
+	for k := range m {
+		out = append(out, k)
+	}
+	sort.Ints(out)
+	return out
+}
+
 func TestC13(t *testing.T) {
 	delays := []int{0, 0, 1, 5, 20, 50}
 	lab.Prop[c13Case]{
 		ID: "C13", Part: "starttls",
-		Rule: "rapid: 1..16 parallel sessions through a recording wiretap proxy; the StartTLS handler sleeps d1, writes success, sleeps d2 (0..50 ms, occasionally up to 600 ms; the client's ClientHello is already on the wire), calls Request.StartTLS, sleeps d3; the session may then stay idle for 0.3..2.5 s; then 1..40 generated requests of all operations (controls, binary values) inside the tunnel, sequentially or pipelined in one write; conforming clients = raw independent client and go-ldap StartTLS; oracle = handshake succeeds for every timing, every tunnel request is decoded (field-by-field as C01) and answered once, and every captured byte after the StartTLS exchange is a TLS record in both directions; non-trivial = d2 > 0 and >= 2 concurrent requests after the upgrade; distinct by hash of the session",
+		Rule: "rapid: 1..16 parallel sessions through a recording wiretap proxy; the StartTLS handler sleeps d1, writes success, sleeps d2 (0..50 ms, occasionally up to 600 ms; the client's ClientHello is already on the wire), calls Request.StartTLS, sleeps d3; the session may then stay idle for 0.3..2.5 s; then 1..40 generated requests of all operations (controls, binary values) inside the tunnel, sequentially or pipelined in one write; the server's logger is at Error or Debug level; handlers of the plaintext requests before the StartTLS may linger after answering; conforming clients = raw independent client and go-ldap StartTLS; oracle = handshake succeeds for every timing, every tunnel request is decoded (field-by-field as C01), numbered in continuation of the connection's Request.IDs and answered once, and every captured byte after the StartTLS exchange is a TLS record in both directions; non-trivial = d2 > 0 and >= 2 concurrent requests after the upgrade; distinct by hash of the session",
 		Gen: func(t *rapid.T) c13Case {
 			var c c13Case
+			c.Debug = rapid.IntRange(0, 3).Draw(t, "debuglog") == 0
+			if rapid.IntRange(0, 2).Draw(t, "linger") == 0 {
+				c.LingerMs = rapid.SampledFrom([]int{1, 20, 300}).Draw(t, "lingerms")
+			}
 			n := rapid.IntRange(1, 6).Draw(t, "nsessions")
 			if rapid.IntRange(0, 9).Draw(t, "many") == 0 {
 				n = 16
